@@ -3,7 +3,7 @@
 // Contracts for the deductive verifier in /verif (comment-only: adds no declarations).
 package main
 
-//@ use strings nethttp fmt oauth2 neturl time ssh crypto errors x509
+//@ use strings nethttp fmt oauth2 neturl time ssh crypto errors x509 keymasterd_jose
 
 // ---- C17: post-login redirects stay on the keymaster origin ------------------------------------
 //@ pure func noControlBytes(s string) bool = (forallIdx j int :: 0 <= j && j < len(s) ==> s[j] >= 0x20 && s[j] != 0x7f)
@@ -134,3 +134,22 @@ package main
 //@   requires params != nil && strongKey(params.UserPub)                                                 #C10.role-gen-strong @C10
 //@   requires params != nil && params.Duration <= maxRoleRequestingCertDuration                          #C03.role-gen-45d @C03
 //@   requires ghostAuthed                                                                                #C06.authed-role @C06
+
+// ---- C04: signed tokens are unforgeable and purpose-bound ---------------------------------------------------
+//@ pure func verifiedByKeymaster(state *RuntimeState, raw string) bool = (exists i int :: 0 <= i && i < len(state.KeymasterPublicKeys) && sigVerifies(raw, state.KeymasterPublicKeys[i]))
+//@ func publicToPreferedJoseSigAlgo
+//@   ensures ret1 == nil ==> asymmetricAlg(ret0)                                                         #C04.sig-alg @C04
+//@ func (*RuntimeState).getJoseKeymastedVerifierList
+//@   ensures ret1 == nil ==> (forall i int :: 0 <= i && i < len(ret0) ==> asymmetricAlg(ret0[i]))           #C04.verifier-list @C04
+//@   loop 1 (algorithmSet map[jose.SignatureAlgorithm]struct{}) invariant (forall k jose.SignatureAlgorithm :: hasKey(algorithmSet, k) ==> asymmetricAlg(k))  #C04.verifier-set @C04
+// JWTClaims tries every published key: its body is used at each call site (the success return sits inside the loop)
+//@ func (*RuntimeState).JWTClaims
+//@   inline always
+//@ func (*RuntimeState).getAuthInfoFromJWT
+//@   ensures err == nil ==> verifiedByKeymaster(state, serializedToken)                                    #C04.auth-verified @C04
+//@   ensures err == nil ==> claimsAuthJWT(serializedToken).Issuer == state.idpGetIssuer()                  #C04.auth-issuer @C04
+//@   ensures err == nil ==> len(claimsAuthJWT(serializedToken).Audience) >= 1 && claimsAuthJWT(serializedToken).Audience[0] == state.idpGetIssuer()  #C04.auth-audience @C04
+//@   ensures err == nil ==> claimsAuthJWT(serializedToken).TokenType == tokenType                          #C04.auth-kind @C04
+//@   ensures err == nil ==> claimsAuthJWT(serializedToken).NotBefore <= nowNanos() / 1000000000            #C04.auth-nbf @C04
+//@   ensures err == nil ==> rvalue.Username == claimsAuthJWT(serializedToken).Subject && rvalue.AuthType == claimsAuthJWT(serializedToken).AuthType  #C04.auth-claims @C04
+//@   ensures err == nil ==> timeNanos(rvalue.ExpiresAt) == claimsAuthJWT(serializedToken).Expiration * 1000000000 && timeNanos(rvalue.IssuedAt) == claimsAuthJWT(serializedToken).IssuedAt * 1000000000  #C04.auth-times @C04
